@@ -566,23 +566,69 @@ def _l5(model, rep):
 
 
 def _l6(model, rep):
+    """asm(): which basis tuple goes with which block index, and which form
+    class wraps a plain function - by symbolic run"""
     L6 = "C19-L6"
     fn = model.func("skfem.assembly", "asm")
-    z = [n for n in ast.walk(fn.node) if isinstance(n, ast.Call)
-         and src(n.func) == "zip"]
-    ok = False
-    if len(z) == 1 and len(z[0].args) == 2:
-        a, b = (src(x).replace(" ", "") for x in z[0].args)
-        ok = (a == "product(*(range(len(x))forxinnargs))"
-              and b == "product(*nargs)")
-    lam = [n for n in ast.walk(fn.node) if isinstance(n, ast.Lambda)]
-    ok2 = len(lam) == 1 and src(lam[0].body).replace(" ", "") == \
-        "form.coo_data(*a[1],idx=a[0],**kwargs)"
-    _v(rep, L6, ok and ok2, "asm:pairing",
-       "index tuples and basis tuples come from products over the same "
-       "lists in the same order", fn.path, "asm",
-       "the index product and the basis product are built from different "
-       "lists or orders", fn.lineno)
+    fcls = model.cls("skfem.assembly.form.form", "Form")
+    calls = []
+
+    def hook(interp, name, args, kwargs, node):
+        if name == "itertools.product":
+            from itertools import product
+            return list(product(*[list(a) for a in args]))
+        for w in ("Functional", "LinearForm", "BilinearForm",
+                  "TrilinearForm"):
+            if name.endswith("." + w):
+                return mkform(w, args[0])
+        return NotImplemented
+
+    def mkform(kind, inner):
+        def coo(a, k, n):
+            calls.append((kind, tuple(a), dict(k)))
+            return ("coo", len(calls) - 1)
+        return Obj(fcls, {"form": Obj(None, {"__name__": "f"}),
+                          "coo_data": PyFunc(coo), "kind": kind,
+                          "inner": inner})
+    to = PyFunc(lambda a, k, n: list(a[0]))
+    form = mkform("given", None)
+    args = [["u0", "u1"], "v", ["w0", "w1", "w2"]]
+    try:
+        Interp(model, call_hook=hook).call(fn, [form] + args,
+                                           {"to": to, "extra": "E"})
+    except (Unsupported, Raised) as e:
+        raise AnalysisError(f"asm: {e}")
+    from itertools import product
+    want = []
+    for i, j in product(range(2), range(3)):
+        want.append(("given", (f"u{i}", "v", f"w{j}"),
+                     {"idx": (i, 0, j), "extra": "E"}))
+    got = [(k, a, {kk: (tuple(int(x) for x in vv) if kk == "idx" else vv)
+                   for kk, vv in kw.items()}) for k, a, kw in calls]
+    _v(rep, L6, sorted(got, key=repr) == sorted(want, key=repr),
+       "asm:pairing",
+       "every combination of listed bases is assembled once with idx = its "
+       "position in each list; keyword arguments forwarded", fn.path, "asm",
+       f"asm assembles {got[:3]}...; expected each combination of the "
+       f"listed bases with idx = its positions, e.g. {want[1]}", fn.lineno)
+    # plain functions are wrapped by the form class of their arity
+    kinds = ["Functional", "LinearForm", "BilinearForm", "TrilinearForm"]
+    for nargs, kind in enumerate(kinds, 1):
+        calls.clear()
+        f = Obj(None, {"__code__": Obj(None, {"co_argcount": nargs}),
+                       "__name__": "f"})
+        f.skv_callable = True
+        try:
+            Interp(model, call_hook=hook).call(
+                fn, [f] + ["b"] * max(nargs - 1, 1), {"to": to})
+        except (Unsupported, Raised) as e:
+            raise AnalysisError(f"asm(function of {nargs} arguments): {e}")
+        ks = {c[0] for c in calls}
+        _v(rep, L6, ks == {kind}, f"asm:wrapper[{nargs}]",
+           f"a function of {nargs} argument(s) is assembled as {kind}",
+           fn.path, "asm",
+           f"a function of {nargs} argument(s) is wrapped as {sorted(ks)}, "
+           f"not {kind}", fn.lineno)
 
 
 def run(model: Model, rep, tier: str) -> None:
@@ -616,7 +662,15 @@ _LOCS = """            self.doflocs = np.array([
                 for i in range(self.dim * elem.doflocs.shape[0])
             ])
 """
+_AS = "skfem/assembly/__init__.py"
 MUTANTS = [
+    ("asm wraps a two-argument function as a linear form",
+     (_AS, "            Functional,\n            LinearForm,\n"
+      "            BilinearForm,\n", "            Functional,\n"
+      "            BilinearForm,\n            LinearForm,\n"), "C19-L6"),
+    ("asm numbers the block index from the reversed lists",
+     (_AS, "zip(product(*(range(len(x)) for x in nargs)),",
+      "zip(product(*(range(len(x))[::-1] for x in nargs)),"), "C19-L6"),
     ("vector element repeats locations by the spatial dimension",
      (_EV, _LOCS, "            self.doflocs = np.repeat(elem.doflocs, "
       "elem.dim, axis=0)\n"), "C19-L4"),
@@ -712,6 +766,14 @@ MUTANTS = [
       "                        product(*nargs[::-1]))))"), "C19-L6"),
 ]
 TWINS = [
+    ("asm builds the index tuples with enumerate",
+     (_AS, "    retval = to(map(lambda a: form.coo_data(*a[1], idx=a[0], "
+      "**kwargs),\n                    zip(product(*(range(len(x)) for x in "
+      "nargs)),\n                        product(*nargs))))",
+      "    retval = to([form.coo_data(*[p[1] for p in c],\n"
+      "                               idx=tuple(p[0] for p in c), **kwargs)"
+      "\n                 for c in product(*(list(enumerate(x)) for x in "
+      "nargs))])")),
     ("tolocal moves the cell axis with positive axis numbers",
      ("skfem/assembly/form/coo_data.py",
       "                                              order='C'), -1, 0)",
